@@ -4,9 +4,14 @@ from .. import core
 
 INTS = [("signed char", "i8"), ("unsigned char", "u8"), ("short", "i16"), ("unsigned short", "u16"), ("int", "i32"), ("unsigned", "u32"), ("long", "i64"), ("unsigned long", "u64")]
 MODES = [("Nat", "native"), ("Nea", "nearest"), ("Tie", "tie_to_pos_inf"), ("Flo", "neg_inf")]
+E = "cnl::elastic_integer"
+CLASS_REPS = [((E + "<10>", "e10"), (E + "<10>", "e10")), ((E + "<20>", "e20"), (E + "<7,signed char>", "e7c")), ((E + "<40>", "e40"), (E + "<33>", "e33")), ((E + "<62>", "e62"), (E + "<31>", "e31")),
+              ((E + "<31>", "e31"), (E + "<16,unsigned>", "e16u")), ((E + "<24,unsigned>", "e24u"), (E + "<12>", "e12")), (("cnl::wide_integer<100>", "w100"), ("cnl::wide_integer<100>", "w100")),
+              ((E + "<100>", "e100"), (E + "<40>", "e40")), (("cnl::overflow_integer<" + E + "<20>,cnl::saturated_overflow_tag>", "sat<e20>"), ("cnl::overflow_integer<" + E + "<10>,cnl::saturated_overflow_tag>", "sat<e10>"))]
 RULE = ("kernel = (rounding tag, dividend type, divisor type, entry point: rounding_integer operator/ or _impl::divide<Tag>) plus (tag, type pair) kernels checking every other operator against the built-in one. "
         "8-bit x 8-bit operand pairs are enumerated exhaustively (all sign quadrants, all ties); wider types get the boundary lattice squared, divisors 6/7/10/100, and seeded ties a = k*b + b/2 with both neighbours and both signs. "
         "Oracle: exact quotient and remainder on 256-bit integers, rounded by the mathematical definition of the mode. Domain: b != 0, operands representable in the common type, truncated and rounded quotient representable in decltype(a/b). "
+        "Class-type representations (elastic_integer, wide_integer, overflow_integer<elastic_integer>) under every tag: same oracle, quotient type as deduced by CNL. "
         "distinct_nontrivial counts enumerated/lattice pairs that are exact ties, exact divisions, or have an operand within 3 of 0, a bound or a power of two.")
 
 
@@ -15,7 +20,7 @@ def kernels(tier, seed):
     ks = []
     pairs = [(l, r) for l in INTS for r in INTS]
     corep = [(l, l) for l in INTS] + [(INTS[0], INTS[1]), (INTS[1], INTS[0]), (INTS[4], INTS[5]), (INTS[5], INTS[4]), (INTS[0], INTS[6]), (INTS[6], INTS[0]), (INTS[2], INTS[4]), (INTS[7], INTS[6])]
-    chosen = corep + (pairs if tier == "thorough" else rng.sample([p for p in pairs if p not in corep], 12))
+    chosen = corep + [p for p in pairs if p not in corep]  # every pairing of dividend and divisor type (the divide-function entry point on a seeded third)
     seen = set()
     for (lc, ln), (rc, rn) in chosen:
         if (ln, rn) in seen: continue
@@ -25,7 +30,11 @@ def kernels(tier, seed):
             if tier == "thorough" or (len(ks) + seed) % 3 == 0:
                 ks.append(("divide<%s>(%s,%s)" % (mn, ln, rn), "c08::rdiv<c08::%s,%s,%s,c08::E_DIVIDE_FN>" % (mc, lc, rc)))
         mc, mn = MODES[(len(seen) + seed) % 4]
-        ks.append(("rounding_integer<%s,%s> other-ops <%s>" % (ln, mn, rn), "c08::rother<c08::%s,%s,%s>" % (mc, lc, rc)))
+        if tier == "thorough" or ((lc, ln), (rc, rn)) in corep or (len(seen) + seed) % 4 == 0:
+            ks.append(("rounding_integer<%s,%s> other-ops <%s>" % (ln, mn, rn), "c08::rother<c08::%s,%s,%s>" % (mc, lc, rc)))
+    for (lc, ln), (rc, rn) in CLASS_REPS:
+        for mc, mn in MODES:
+            ks.append(("rounding_integer<%s,%s> / <%s>" % (ln, mn, rn), "c08::rdiv_class<c08::%s,%s,%s>" % (mc, lc, rc)))
     return [(d, '%s("%s");' % (c, d)) for d, c in ks]
 
 
